@@ -278,21 +278,24 @@ def variant(draw, set_names, sets, regs, env, allow_specific=True, max_ops=3):
     use_spec = allow_specific and draw(st.integers(0, 3)) == 0
     use_sets = (not use_spec) or draw(st.booleans())
     if use_spec:
-        lst = {}
-        for i in range(nops):
-            # 'empty' is only documented as the trailing / sole member of a specific list
-            kind = draw(st.sampled_from(ALL_KINDS + (['empty', 'empty'] if i == nops - 1 else [])))
-            if kind in ('register', 'indexed_register', 'indirect_register', 'indirect_indexed_register') and not regs:
-                kind = 'numeric'
-            if kind == 'enumeration' and not env['keys']:
-                kind = 'numeric'
-            lst[f'sp{i}_{kind[:5]}'] = draw(alternative(kind, regs, env))
-        spec = {'list': lst}
-        if draw(st.integers(0, 3)) == 0:
-            spec['reverse_argument_order'] = True
-        if draw(st.integers(0, 3)) == 0:
-            spec['reverse_bytecode_order'] = True
-        oc['specific_operands'] = {'spec_a': spec}
+        specs = {}
+        for si in range(draw(st.sampled_from([1, 1, 2]))):
+            lst = {}
+            for i in range(nops):
+                # 'empty' is only documented as the trailing / sole member of a specific list
+                kind = draw(st.sampled_from(ALL_KINDS + (['empty', 'empty', 'empty'] if i == nops - 1 else [])))
+                if kind in ('register', 'indexed_register', 'indirect_register', 'indirect_indexed_register') and not regs:
+                    kind = 'numeric'
+                if kind == 'enumeration' and not env['keys']:
+                    kind = 'numeric'
+                lst[f'sp{i}_{kind[:5]}'] = draw(alternative(kind, regs, env))
+            spec = {'list': lst}
+            if draw(st.integers(0, 3)) == 0:
+                spec['reverse_argument_order'] = True
+            if draw(st.integers(0, 3)) == 0:
+                spec['reverse_bytecode_order'] = True
+            specs['spec_' + 'ab'[si]] = spec
+        oc['specific_operands'] = specs
     if use_sets:
         oc['operand_sets'] = {'list': [draw(st.sampled_from(set_names)) for _ in range(nops)]}
         if draw(st.integers(0, 2)) == 0:
